@@ -369,9 +369,9 @@ struct PinnedResult {
     ok: bool,
 }
 
-fn run_replay_file(ctx: &Ctx, file: &Path) -> Result<Value, String> {
+fn run_replay_file(ctx: &Ctx, file: &Path, slot: usize) -> Result<Value, String> {
     let extra = vec!["--replay".to_string(), file.display().to_string()];
-    let mut child = spawn_worker(ctx, 99, &extra).map_err(|e| e.to_string())?;
+    let mut child = spawn_worker(ctx, slot, &extra).map_err(|e| e.to_string())?;
     let deadline = Instant::now() + Duration::from_secs(ctx.plan.case_timeout_s.max(60) * 2);
     let stdout = child.stdout.take().unwrap();
     let reader = std::thread::spawn(move || {
@@ -464,14 +464,30 @@ pub fn check(m: Arc<dyn DynMonitor>, tier: Tier, seed: u64, scrut_bin: PathBuf) 
     pin_files.sort();
     let mut pinned_violations: Vec<(String, String, PathBuf)> = vec![];
     let mut known_seen: BTreeMap<String, (String, u64)> = BTreeMap::new();
-    for f in &pin_files {
+    // replay the pinned witnesses (8 at a time), then judge them in file order
+    let mut pin_results: Vec<Option<Result<Value, String>>> = (0..pin_files.len()).map(|_| None).collect();
+    for (base, group) in pin_files.chunks(8).enumerate() {
+        let handles: Vec<_> = group
+            .iter()
+            .enumerate()
+            .map(|(i, f)| {
+                let ctx = ctx.clone();
+                let f = f.clone();
+                std::thread::spawn(move || run_replay_file(&ctx, &f, 100 + i))
+            })
+            .collect();
+        for (i, h) in handles.into_iter().enumerate() {
+            pin_results[base * 8 + i] = Some(h.join().unwrap_or_else(|_| Err("replay thread panicked".into())));
+        }
+    }
+    for (f, result) in pin_files.iter().zip(pin_results.into_iter()) {
         let spec: Value = std::fs::read_to_string(f)
             .ok()
             .and_then(|s| serde_json::from_str(&s).ok())
             .unwrap_or(Value::Null);
         let expect = spec["expect"].as_str().unwrap_or("held").to_string();
         let name = f.file_name().unwrap().to_string_lossy().to_string();
-        match run_replay_file(&ctx, f) {
+        match result.unwrap_or_else(|| Err("not run".into())) {
             Ok(v) => {
                 let got = v["verdict"].as_str().unwrap_or("?").to_string();
                 let sig = sanitize_sig(v["sig"].as_str().unwrap_or(""));
@@ -713,7 +729,7 @@ pub fn replay(m: Arc<dyn DynMonitor>, tier: Tier, seed: u64, scrut_bin: PathBuf,
         plan: m.plan(tier),
     };
     let known = Known::load(&Path::new(VERIF).join("KNOWN_FINDINGS.txt"));
-    let r = run_replay_file(&ctx, file);
+    let r = run_replay_file(&ctx, file, 99);
     let _ = std::fs::remove_dir_all(&scratch_root);
     match r {
         Ok(v) => {
